@@ -44,14 +44,26 @@ func zzStubResumptionBinderKey(s *tls13.EarlySecret) []byte { return make([]byte
 //verif:stub (*github.com/refraction-networking/utls/internal/tls13.EarlySecret).ResumptionBinderKey zzStubResumptionBinderKey
 //verif:expect offered12 offered13 declined
 //verif:assume the session cache returns an ARBITRARY session for the key it is asked for; x509 host-name matching is a stub with an arbitrary outcome; the early secret is opaque
-//verif:doc loadSession (as called by uTLS's uLoadSession) with an arbitrary cached session (version, suite, EMS flag, creation/expiry times, certificate expiry symbolic), arbitrary current time, a hello offering two arbitrary versions and three arbitrary suites with an arbitrary EMS flag: the cache is asked only for the configured server name; a session is offered only if its version is advertised, the cached certificate is not expired and matches the verification name, for TLS <= 1.2 its suite is offered (ticket copied verbatim) and it is not an extended-master-secret session offered without the extension, for TLS 1.3 the ticket is not expired and a suite with the same hash is offered (identity = ticket).
-func zzC19LoadSessionOffersOnlyResumable() {
+//verif:doc loadSession (as called by uTLS's uLoadSession) with an arbitrary cached session (version, suite, EMS flag, creation/expiry times, certificate expiry symbolic), arbitrary current time, a hello offering two arbitrary versions and three arbitrary suites with an arbitrary EMS flag: the cache is asked only for the configured server name; a session is offered only if its version is advertised, the cached certificate is not expired and matches the verification name (ServerName; InsecureServerNameToVerify when set; no name check when that is "*"), for TLS <= 1.2 its suite is offered (ticket copied verbatim) and it is not an extended-master-secret session offered without the extension, for TLS 1.3 the ticket is not expired and a suite with the same hash is offered (identity = ticket).
+func zzC19LoadSessionOffersOnlyResumable() { zzLoadSessionBody() }
+
+func zzLoadSessionBody() {
 	zzCacheKeys, zzCachePuts, zzHostnameChecks = nil, nil, nil
 	zzHostnameOK = verifBool("hostname-matches")
 	now := int64(verifU32("now"))
 	notAfter := int64(verifU32("cert-not-after"))
 	cfg := &Config{ServerName: "a.example", ClientSessionCache: zzScriptedCache{}, Time: func() time.Time { return time.Unix(now, 0) }}
 	cfg.InsecureSkipTimeVerify = verifBool("skip-time")
+	// the name the cached leaf must match: ServerName, or the override, or none for "*"
+	wantName := "a.example"
+	switch verifChoice("name-override", 3) {
+	case 1:
+		cfg.InsecureServerNameToVerify = "*"
+		wantName = ""
+	case 2:
+		cfg.InsecureServerNameToVerify = "real.example"
+		wantName = "real.example"
+	}
 	c := &Conn{config: cfg, isClient: true}
 	uc := &UConn{Conn: c}
 	sc := newSessionController(uc)
@@ -82,7 +94,11 @@ func zzC19LoadSessionOffersOnlyResumable() {
 		verifAssert(now <= notAfter, "cached-certificate-not-expired")
 	}
 	verifAssert(len(session.verifiedChains) > 0, "only-verified-sessions-when-verifying")
-	verifAssert(len(zzHostnameChecks) == 1 && zzHostnameChecks[0] == "a.example" && zzHostnameOK, "cached-leaf-matches-verification-name")
+	if wantName == "" {
+		verifAssert(len(zzHostnameChecks) == 0, "no-name-check-when-override-is-star")
+	} else {
+		verifAssert(len(zzHostnameChecks) == 1 && zzHostnameChecks[0] == wantName && zzHostnameOK, "cached-leaf-matches-verification-name")
+	}
 	if session.version != VersionTLS13 {
 		verifReach("offered12")
 		verifAssert(zzContainsU16(hello.cipherSuites, session.cipherSuite) && cipherSuiteByID(session.cipherSuite) != nil, "tls12-suite-still-offered")
@@ -108,6 +124,7 @@ func zzC19LoadSessionOffersOnlyResumable() {
 }
 
 var zzBinderOut []byte
+var zzBinderTranscript []byte
 
 func zzStubFinishedHash(c *cipherSuiteTLS13, baseKey []byte, transcript interface {
 	Write([]byte) (int, error)
@@ -116,6 +133,9 @@ func zzStubFinishedHash(c *cipherSuiteTLS13, baseKey []byte, transcript interfac
 	Size() int
 	BlockSize() int
 }) []byte {
+	if u, ok := transcript.(*zzUFHash); ok {
+		zzBinderTranscript = append([]byte{}, u.written...)
+	}
 	zzBinderOut = verifUFBytes("binder", 32, append(append([]byte{}, baseKey[:1]...), transcript.Sum(nil)[:4]...))
 	return zzBinderOut
 }
